@@ -49,11 +49,12 @@ def run(chk):
     if chk.quick:
         plan = [('params', exe, 'release', ['--what', 'params', '--nrand', 500]),
                 ('tuples', exe, 'release', ['--what', 'tuples', '--per', 24]),
-                ('tuples', exe_chk, 'checked', ['--what', 'tuples', '--per', 8])]
+                ('tuples', exe_chk, 'checked', ['--what', 'tuples', '--per', 8]),
+                ('deg', exe, 'release', ['--what', 'deg'])]
     else:
         plan = [('params', exe, 'release', ['--what', 'params', '--range', '%d:%d' % (a, min(a + 7050, 56403))])
                 for a in range(0, 56404, 7051)]
-        plan += [('params', exe_chk, 'checked', ['--what', 'params', '--nrand', 3000])]
+        plan += [('params', exe_chk, 'checked', ['--what', 'params', '--nrand', 3000]), ('deg', exe, 'release', ['--what', 'deg']), ('deg', exe_chk, 'checked', ['--what', 'deg'])]
         plan += [('tuples', exe, 'release', ['--what', 'tuples', '--per', 2400, '--first', a, '--count', 40]) for a in range(0, 477, 40)]
         plan += [('tuples', exe_chk, 'checked', ['--what', 'tuples', '--per', 600, '--first', a, '--count', 120]) for a in range(0, 477, 120)]
     traces = []
